@@ -45,12 +45,39 @@ def _iterator_cases(rng, tier):
             yield Case(lines, {"iter": op, "d": c.lines[0].split("\t")[-1]})
 
 
+def _reader_and_skip_cases(rng, tier):
+    """the `io::Read` doors of every header type (C06's operations: `read`, the `*HeaderSlice` and deprecated
+    `read_from_slice` twins, the length-limited readers) and the IPv6 extension skipping functions in their
+    reader and slice variants (C16's operations, every first next-header value): entry points like the
+    others, run here under the no-panic oracle"""
+    from . import c06, c16
+
+    n = 2500 if tier == "quick" else 60000
+    for start, et, data, meta in D.base_inputs(random.Random(rng.randrange(1 << 30)), n, 10 if tier == "quick" else 300):
+        m2 = dict(meta)
+        m2["k3"] = "read"
+        c = c06.build(m2)
+        if c is not None:
+            yield Case(c.lines, {"iter": "read", "d": hx(data)})
+    for c in D.readlim_cases(random.Random(rng.randrange(1 << 30)), 600 if tier == "quick" else 20000):
+        yield Case(c.lines, {"iter": "readlim", "d": c.lines[0].split("\t")[-1]})
+    r2 = random.Random(rng.randrange(1 << 30))
+    for i, c in enumerate(c16.gen_skip_cases(r2, "quick")):
+        if tier == "quick" and c.meta.get("dlen", 0) > 24 and i % 3:
+            continue
+        # without failure injection in front of the end: the reader sees the whole data or its end
+        lines = [l for l in c.lines if int(l.split("\t")[3]) >= len(l.split("\t")[2]) // 2]
+        if lines:
+            yield Case(lines, {"iter": "skip", "d": c.meta.get("full", "")})
+
+
 def generate(rng, tier):
     n = 9000 if tier == "quick" else 250000
     tb = 40 if tier == "quick" else 1000
     for start, et, data, meta in D.base_inputs(rng, n, tb):
         yield c01.build(meta)
     yield from _iterator_cases(rng, tier)
+    yield from _reader_and_skip_cases(rng, tier)
 
 
 def is_trivial(c):
